@@ -188,11 +188,14 @@ func runC15(c *Ctx) {
 							pidx = i
 						}
 					}
-					if pidx < 0 {
-						continue
-					}
 					for _, sc := range findCalls(h, st.callee) {
-						if sc.value() == nil || resolve(sc.arg(0)) != ssa.Value(h.Params[pidx]) {
+						if sc.value() == nil {
+							continue
+						}
+						viaParam := pidx >= 0 && resolve(sc.arg(0)) == ssa.Value(h.Params[pidx])
+						// or the helper is a method of a carrier struct that holds the file (staged.close())
+						viaCarrier := pidx < 0 && liftPhase(L, phaseHelpers, sc.arg(0)) == tmpFile
+						if !viaParam && !viaCarrier {
 							continue
 						}
 						okAll := true
@@ -212,7 +215,9 @@ func runC15(c *Ctx) {
 						if ok, w := checkedBefore(hc.value(), rnAt); ok {
 							best, why = hc.value(), "through "+h.Name()+" (step checked before each of its success returns; "+w+")"
 							helperSteps[st.callee] = sc.value()
-							stepHelpers[h] = pidx
+							if pidx >= 0 {
+								stepHelpers[h] = pidx
+							}
 						}
 					}
 				}
@@ -440,6 +445,37 @@ func c15Defer(c *Ctx, fn *ssa.Function, ct *ssa.Call, src ssa.Value, tmpFile ssa
 			}
 		}
 	}
+	// the removal may sit in a method the deferred closure calls (staged.release(retErr != nil)): found there with its
+	// argument read at the call, and its guard read as the condition the closure passes in
+	var viaMethod *ssa.Function
+	var methodCall callSite
+	if def == nil {
+		for _, b := range fn.Blocks {
+			for _, in := range b.Instrs {
+				d, ok := in.(*ssa.Defer)
+				if !ok {
+					continue
+				}
+				mc, ok := d.Call.Value.(*ssa.MakeClosure)
+				if !ok {
+					continue
+				}
+				cl := mc.Fn.(*ssa.Function)
+				for _, hc := range callsIn(cl) {
+					h := hc.common.StaticCallee()
+					if h == nil || h.Pkg != fn.Pkg || len(h.Blocks) == 0 {
+						continue
+					}
+					for _, cs := range findCalls(h, "os.Remove") {
+						if liftPhase(L, map[*ssa.Function]bool{}, cs.arg(0)) == src {
+							def, closure, remove = d, cl, cs
+							viaMethod, methodCall = h, hc
+						}
+					}
+				}
+			}
+		}
+	}
 	if def == nil {
 		c.fail("C15.4", name+":deferred-cleanup", L.pos(fn.Pos()), "no deferred closure removes the temporary file (os.Remove(<temp name>))")
 		return
@@ -500,6 +536,50 @@ func c15Defer(c *Ctx, fn *ssa.Function, ct *ssa.Call, src ssa.Value, tmpFile ssa
 
 	// (ii) Remove runs iff the named result is non-nil
 	okCond, why := false, "os.Remove is not guarded by a test of the function's error result"
+	if viaMethod != nil {
+		// in the method: the removal is guarded by exactly one bool parameter; at the call: that parameter is
+		// `<named result> != nil`; the call is reached on every path through the closure
+		var flag *ssa.Parameter
+		for _, iff := range controllingIfs(remove.instr) {
+			if prm, isP := iff.Cond.(*ssa.Parameter); isP && prm.Parent() == viaMethod && (iff.Block().Succs[0] == remove.instr.Block() || iff.Block().Succs[0].Dominates(remove.instr.Block())) {
+				flag = prm
+			}
+		}
+		if flag != nil {
+			idx := paramIndex(viaMethod, flag)
+			if idx >= 0 && idx < len(methodCall.common.Args) {
+				if bo, isB := methodCall.common.Args[idx].(*ssa.BinOp); isB && bo.Op == token.NEQ && (isNilConst(bo.X) || isNilConst(bo.Y)) {
+					other := bo.X
+					if isNilConst(bo.X) {
+						other = bo.Y
+					}
+					if lu, isL := other.(*ssa.UnOp); isL && lu.Op == token.MUL {
+						al := allocOf(lu.X)
+						named := al != nil && al.Parent() == fn
+						for _, r := range returnsOf(fn) {
+							if len(r.Results) == 0 {
+								named = false
+								continue
+							}
+							l2, ok := r.Results[len(r.Results)-1].(*ssa.UnOp)
+							if !ok || l2.Op != token.MUL || allocOf(l2.X) != al {
+								named = false
+							}
+						}
+						always := true
+						for _, r := range returnsOf(closure) {
+							if !instrDominates(methodCall.instr, r) {
+								always = false
+							}
+						}
+						if named && always {
+							okCond, why = true, fmt.Sprintf("%s removes the file under its parameter %s, which the deferred closure passes as `%s != nil`; every return of %s loads that variable", viaMethod.Name(), flag.Name(), al.Comment, name)
+						}
+					}
+				}
+			}
+		}
+	}
 	for _, b := range closure.Blocks {
 		for _, in := range b.Instrs {
 			u, ok := in.(*ssa.UnOp)
@@ -982,6 +1062,45 @@ func createTempThroughHelper(v ssa.Value) (*ssa.Call, *ssa.Call) {
 // liftPhase: a parameter of a phase helper is read as the argument at the helper's only call site.
 func liftPhase(L *Loaded, helpers map[*ssa.Function]bool, v ssa.Value) ssa.Value {
 	v = resolve(v)
+	// s.name inside a method of a small carrier struct: the field of the struct the method is called on, when every call
+	// site passes the address of one local struct whose field is written once
+	if ld, ok := v.(*ssa.UnOp); ok && ld.Op == token.MUL {
+		if fa, ok := ld.X.(*ssa.FieldAddr); ok {
+			if p, isP := fa.X.(*ssa.Parameter); isP {
+				sites := llmCallSites(L, p.Parent())
+				var val ssa.Value
+				okAll := len(sites) > 0
+				for _, cs := range sites {
+					idx := paramIndex(p.Parent(), p)
+					if idx < 0 || idx >= len(cs.common.Args) {
+						okAll = false
+						continue
+					}
+					al, isAl := cs.common.Args[idx].(*ssa.Alloc)
+					if !isAl {
+						if fv, isFV := cs.common.Args[idx].(*ssa.FreeVar); isFV {
+							if b := freeVarBinding(fv); b != nil {
+								al, isAl = b.(*ssa.Alloc)
+							}
+						}
+					}
+					if !isAl {
+						okAll = false
+						continue
+					}
+					st := singleFieldStore(al, fa.Field)
+					if st == nil || (val != nil && resolve(st.Val) != val) {
+						okAll = false
+						continue
+					}
+					val = resolve(st.Val)
+				}
+				if okAll && val != nil {
+					return val
+				}
+			}
+		}
+	}
 	for depth := 0; depth < 2; depth++ {
 		p, isP := v.(*ssa.Parameter)
 		if !isP || !helpers[p.Parent()] {
